@@ -1698,6 +1698,37 @@ func (dsc *dataStoreCommand) lmove(srcKeyName, destKeyName string, srcLeft, dest
 	return
 }
 
+// pops one element from the first of the named lists that is not empty
+func (dsc *dataStoreCommand) popFirst(keyNames []string, left bool) (keyName string, value []byte, err *respErrorString) {
+	dsc.lock()
+	defer dsc.unlock()
+
+	for _, keyName = range keyNames {
+		var list *storeList
+		list, err = dsc.getListUnlocked(keyName)
+		if err != nil {
+			return
+		}
+		if list == nil || list.count == 0 {
+			continue
+		}
+		if left {
+			item := list.head
+			value = item.element
+			dsc.lpopUnlocked(keyName, list, item)
+		} else {
+			item := list.tail
+			value = item.element
+			dsc.rpopUnlocked(keyName, list, item)
+		}
+		if value == nil {
+			value = []byte{}
+		}
+		return
+	}
+	return
+}
+
 func (dsc *dataStoreCommand) lmpop(keyNames []string, left bool, count int) (output respValue) {
 	dsc.lock()
 	defer dsc.unlock()
